@@ -283,6 +283,43 @@ def c10_3(ctx: Ctx) -> RuleResult:
         augs = [n for h_ in [g] + [x for x in ctx.cg.reachable([g], include_nested_values=False) if x.module is g.module and x.cls is None and x.name.startswith("_")]
                 for n in nodes_in(h_, ast.AugAssign) if isinstance(n.op, ast.Add) and "generate_samples" in ast.unparse(n.value)]
         res.add(g, c, "contributions of several samplers are added", bool(augs), "" if augs else "sampler outputs are not summed", construct=f"{g.name}: sum of samplers")
+        # each sampler is drawn from once: the indices that select sampler objects are the configured
+        # non-negative entries (negative entries mark variables without a sampler and must never index the list)
+        from ..util import bool_nnf, path_condition
+
+        region_ = [g] + [x for x in ctx.cg.reachable([g], include_nested_values=False) if x.module is g.module and x.cls is None and x.name.startswith("_")]
+        for h_ in region_:
+            for cl in calls_in(h_):
+                if not (isinstance(cl.func, ast.Attribute) and cl.func.attr == "generate_samples" and isinstance(cl.func.value, ast.Subscript)):
+                    continue
+                sub_ = cl.func.value
+                if isinstance(sub_.slice, ast.Constant):
+                    continue
+                idx = X.at(h_, sub_.slice)
+                filtered = False
+                for _h2, y in deep_subterms(ctx, h_, idx, 4):
+                    if y[0] == "call" and y[1] in (("global", "numpy.compress"), ("global", "numpy.extract")) and y[2] and contains(y[2][0], lambda z: z[0] == "cmp" and z[1] in (">=", ">", "<", "<=")):
+                        filtered = True
+                    if y[0] == "sub" and contains(y[2], lambda z: z[0] == "cmp" and z[1] in (">=", ">", "<", "<=")):
+                        filtered = True
+                st_ = cl
+                while parent(st_) is not None and not isinstance(st_, ast.stmt):
+                    st_ = parent(st_)
+                guarded = False
+                for t_, pol in path_condition(ctx, h_, st_):
+                    gq = bool_nnf(t_ if pol else ("unary", "not", t_))
+                    for it in (gq[1] if gq[0] == "and" else [gq]):
+                        if it[0] != "lit" or it[1][0] != "cmp":
+                            continue
+                        _k, op, l_, r_ = it[1]
+                        pos = it[2]
+                        if (pos and ((op == ">=" and l_ == idx and r_ == C(0)) or (op == "<=" and l_ == C(0) and r_ == idx) or (op == ">" and l_ == idx and r_ == C(-1)))) or \
+                                (not pos and ((op == "<" and l_ == idx and r_ == C(0)) or (op == ">" and l_ == C(0) and r_ == idx))):
+                            guarded = True
+                ok = filtered or guarded
+                res.add(h_, cl, "the index that selects a sampler object comes from the non-negative entries of gradient.samplers (filtered with `>= 0` or used under `idx >= 0`)", ok,
+                        "" if ok else f"`{ast.unparse(sub_)[:60]}` can be indexed with a negative entry (the marker of variables without a sampler): Python wraps it to the last sampler, which is then drawn twice",
+                        construct=f"{h_.name}: sampler index `{ast.unparse(sub_.slice)[:40]}`")
     res.floor = 3
     return res
 
